@@ -217,3 +217,109 @@ class NumBeta:
 
     def b_qcd(self, k, nf):
         return self.beta_qcd(k, nf) / self.beta_qcd((2, 0), nf)
+
+
+# ---------------------------------------------------------------------------
+# matrix exponential by its defining series (stub for ekore exp_matrix = LAPACK eig) and ODE series solutions
+# ---------------------------------------------------------------------------
+def _is_zero_entry(t):
+    if isinstance(t, Jet):
+        return not t.c and t.prec >= INF
+    if isinstance(t, (SR, Cx)):
+        return t.is_zero()
+    return isinstance(t, (int, float)) and t == 0
+
+
+def _all_small(term):
+    """every entry is zero up to the current cap"""
+    for t in term.flat:
+        if isinstance(t, Jet):
+            if t.c:
+                return False
+        elif not _is_zero_entry(t):
+            return False
+    return True
+
+
+def mat_exp_series(A):
+    """sum_k A^k/k! for a square matrix whose entries are jets of positive valuation (or exact zeros)."""
+    from fractions import Fraction
+
+    dim = A.shape[0]
+    out = realnp.empty((dim, dim), dtype=object)
+    for i in range(dim):
+        for j in range(dim):
+            out[i, j] = Jet.lift(1 if i == j else 0)
+    term = out.copy()
+    for k in range(1, jetmod.CAP[0] + 3):
+        term = (term @ A) * Fraction(1, k)
+        out = out + term
+        if _all_small(term):
+            break
+    return out
+
+
+class AdSeries:
+    """ekore.anomalous_dimensions with exp_matrix (numpy.linalg.eig = LAPACK) replaced by the defining series;
+    records the matrices it is called with."""
+
+    def __init__(self, real):
+        self._real = real
+        self.calls = []
+
+    def __getattr__(self, n):
+        return getattr(self._real, n)
+
+    def exp_matrix(self, m):
+        self.calls.append(m)
+        return mat_exp_series(m), None, None
+
+
+class AdRecorder:
+    """ekore.anomalous_dimensions recording the arguments of exp_matrix_2D / exp_matrix and returning opaque results
+    (used to compare the step exponents of two kernels exactly)."""
+
+    def __init__(self, real):
+        self._real = real
+        self.calls = []
+
+    def __getattr__(self, n):
+        return getattr(self._real, n)
+
+    def _ident(self, m):
+        dim = m.shape[0]
+        return realnp.array([[1 if i == j else 0 for j in range(dim)] for i in range(dim)], dtype=object)
+
+    def exp_matrix(self, m):
+        self.calls.append(m)
+        return self._ident(m), None, None
+
+    def exp_matrix_2D(self, m):
+        self.calls.append(m)
+        return self._ident(m), None, None, None, None
+
+
+def jet_integrate(x):
+    """int_0^lam x dlam' coefficient-wise"""
+    from fractions import Fraction
+
+    x = as_jet(x)
+    if x.c and x.v < 0:
+        raise EngineError("integration of a jet with a pole")
+    return Jet(x.v + 1, [c * Fraction(1, x.v + 1 + i) for i, c in enumerate(x.c)], (x.prec + 1) if x.prec < INF else INF)
+
+
+def ode_series(N, dim):
+    """series solution of dE/dlam = N(lam) E, E(0) = 1 by Picard iteration (N: dim x dim object array of jets)."""
+    E = realnp.empty((dim, dim), dtype=object)
+    for i in range(dim):
+        for j in range(dim):
+            E[i, j] = Jet.lift(1 if i == j else 0)
+    for _ in range(jetmod.CAP[0] + 1):
+        NE = N @ E
+        new = realnp.empty((dim, dim), dtype=object)
+        for i in range(dim):
+            for j in range(dim):
+                new[i, j] = jet_integrate(NE[i, j]) + (1 if i == j else 0)
+        E = new
+    return E
